@@ -264,13 +264,46 @@ fn oracle(c: &Case, rec: &Rec) -> R {
     Ok(())
 }
 
+/// Deterministic controls: the forger's no-lie plain run is the honest prover; it must be accepted
+/// and the returned signatures must be valid exactly on the agreed messages.
+fn control_gen(ctx: &crate::engine::Ctx) -> Vec<Case> {
+    let bals = [BalSel::Zero, BalSel::One, BalSel::Max, BalSel::P32, BalSel::Rand(ctx.seed ^ 0x1234), BalSel::Rand(ctx.seed.wrapping_mul(31))];
+    let mut out = Vec::new();
+    for i in 0..ctx.tier.pick(6usize, 24) {
+        out.push(Case {
+            merchant: (i % 2) as u8,
+            cb: bals[i % bals.len()].clone(),
+            mb: bals[(i / 2 + 3) % bals.len()].clone(),
+            ctx: i as u16,
+            lie: EstLie::None,
+            strategy: EstStrategy::Plain,
+            seed: ctx.seed.wrapping_mul(0x9e37_79b9).wrapping_add(i as u64),
+        });
+    }
+    out
+}
+
 pub fn checks() -> Vec<CheckDef> {
-    vec![prop_check(
+    vec![
+        crate::engine::enum_check(
+            "forger-control",
+            "deterministic controls: the forger's own no-lie plain run (merchants x balance shapes) must be accepted by initialize, and the returned closing signature and pay token must unblind (with the forger's blinding factors) to signatures valid exactly on the agreed close state / state (reference pairing check; invalid on every single-slot alteration)",
+            &["control/accepted"],
+            false,
+            control_gen,
+            oracle,
+        ),
+        forged_check(),
+    ]
+}
+
+fn forged_check() -> CheckDef {
+    prop_check(
         "forged-establish",
-        "generated attempts = (merchant, agreed balances from the lattice/random, context, lie in {none, one state slot, one close-state slot (cid, tag, lock, cb, mb), same slot in both, balances swapped, lock / fresh nonce / 0 in the tag slot, balance in the cid slot}, strategy in {plain prover on the lying messages, revealed commitment scalars chosen after the challenge (all / one), one link dropped, scalar commitment or commitment of either sub-proof chosen after the challenge with responses repaired (with and without re-chosen revealed scalars), 1-2 atoms mutated}); the verifier's challenge is read through the challenge-recorder hook on a draft; oracle: accepted => the forger's known openings satisfy the agreed statement (exact), the no-lie plain control must be accepted and its closing signature / pay token must unblind to signatures valid exactly on the agreed messages (reference pairing check); non-trivial = an attempt with a lie that decodes and reaches verify; distinct by (lie, strategy, balance classes)",
-        &["control/accepted", "strategy/revealed-scalars-chosen-after-challenge", "strategy/scalar-commitment-of-close-chosen-after-challenge+revealed"],
+        "generated attempts = (merchant, agreed balances from the lattice/random, context, lie in {none, one state slot, one close-state slot (cid, tag, lock, cb, mb), same slot in both, balances swapped, lock / fresh nonce / 0 in the tag slot, balance in the cid slot, compensating lies: a slot raised in the state and lowered in the close state}, strategy in {plain prover on the lying messages, revealed commitment scalars chosen after the challenge (all / one), one link dropped, scalar commitment or commitment of either sub-proof chosen after the challenge with responses repaired (with and without re-chosen revealed scalars), responses computed as if the agreed values had been committed, 1-2 atoms mutated}); the verifier's challenge is read through the challenge-recorder hook on a draft; oracle: accepted => the forger's known openings satisfy the agreed statement (exact); non-trivial = an attempt with a lie that decodes and reaches verify; distinct by (lie, strategy, balance classes)",
+        &["strategy/revealed-scalars-chosen-after-challenge", "strategy/scalar-commitment-of-close-chosen-after-challenge+revealed", "strategy/responses-as-if-agreed-values-were-committed"],
         (2200, 90_000),
         strategy,
         oracle,
-    )]
+    )
 }
